@@ -5,7 +5,7 @@ namespace Paho.Driver
 open Paho Paho.LF
 
 def parseDisc (w : String) : DiscAt :=
-  { inConnectFail := w.contains 'f', inOnConnect := w.contains 'c', inOnDisconnect := w.contains 'd' }
+  { inConnectFail := w.contains 'f', inOnConnect := w.contains 'c', inOnDisconnect := w.contains 'd', inWait := w.contains 'w' }
 
 def parseOutcome (w : String) : Option Outcome :=
   match w.splitOn ":" with
